@@ -27,3 +27,26 @@ class FreshList(list):
     def __getitem__(self, i):
         v = list.__getitem__(self, i)
         return FreshList(v) if isinstance(i, slice) else fresh(v)
+
+
+def cont_mode(case):
+    """0, 1 or 2, a stable function of the case (so that a replay presents the input the same way): which container kinds the
+    driver uses for sequences the signatures type as Sequence - lists (0), tuples (1), or tuples outside and lists inside (2)"""
+    import json
+    import zlib
+    try:
+        return zlib.crc32(json.dumps(case, sort_keys=True, default=str).encode()) % 3
+    except Exception:  # noqa: BLE001
+        return 0
+
+
+def seq1(xs, mode):
+    return tuple(xs) if mode in (1, 2) else list(xs)
+
+
+def seq2(rows, mode):
+    if mode == 1:
+        return tuple(tuple(r) for r in rows)
+    if mode == 2:
+        return tuple(list(r) for r in rows)
+    return [list(r) for r in rows]
